@@ -33,20 +33,28 @@ fn small_ontology(n: u32, tree: bool) -> Ontology {
     b.connect_all_terms().calculate_information_content().unwrap().build_minimal()
 }
 
-/// seeded symmetric distance of two id sets. seed % 5 selects the range:
-/// (0.05, 1.05) | (-0.5, 0.5) (a user distance like 1 - similarity may be negative) | (0, 1000) | (-3, -2) | (1e-9, 2e-9)
+/// seeded symmetric distance of two id sets. seed % 6 selects the range:
+/// (0.05, 1.05) | (-0.5, 0.5) (a user distance like 1 - similarity may be negative) | (0, 1000) | (-3, -2) | (1e-9, 2e-9) | (-0.5, 0.5) with a quarter of the pairs at exactly 0
 fn dist(seed: u64, a: &[u32], b: &[u32]) -> f32 {
     let ha = hash_u64s(&a.iter().map(|x| u64::from(*x)).collect::<Vec<_>>());
     let hb = hash_u64s(&b.iter().map(|x| u64::from(*x)).collect::<Vec<_>>());
     let (x, y) = if ha <= hb { (ha, hb) } else { (hb, ha) };
     let h = hash_u64s(&[seed, x, y]);
     let u = ((h >> 40) as f32) / ((1u64 << 24) as f32);
-    match seed % 5 {
+    match seed % 6 {
         0 => 0.05 + u,
         1 => u - 0.5,
         2 => u * 1000.0,
         3 => u - 3.0,
-        _ => (1.0 + u) * 1e-9, // tiny scale: neighbouring values differ by far less than f32::EPSILON
+        4 => (1.0 + u) * 1e-9, // tiny scale: neighbouring values differ by far less than f32::EPSILON
+        // mixed sign with exact zeros in between (1 - similarity of identical-looking sets)
+        _ => {
+            if h & 3 == 0 {
+                0.0
+            } else {
+                u - 0.5
+            }
+        }
     }
 }
 
@@ -103,7 +111,7 @@ impl Monitor for C17 {
     }
     fn mandatory_buckets(&self, _tier: Tier) -> Vec<String> {
         let mut v: Vec<String> = METHODS.iter().map(|m| format!("method/{m}")).collect();
-        for b in ["merge/two_inputs", "merge/input_and_cluster", "merge/two_clusters", "exact_replay_completed", "n/2", "distance_range/mixed_sign", "distance_range/negative", "distance_range/large", "distance_range/tiny", "distance/one_infinite_pair", "input/iterator_with_inexact_size_hint", "input/empty_set", "input/identical_sets", "input/set_with_ancestor_and_descendant"] {
+        for b in ["merge/two_inputs", "merge/input_and_cluster", "merge/two_clusters", "exact_replay_completed", "n/2", "distance_range/mixed_sign", "distance_range/negative", "distance_range/large", "distance_range/tiny", "distance_range/mixed_sign_with_exact_zeros", "owned_iterator_read_from_both_ends", "distance/one_infinite_pair", "input/iterator_with_inexact_size_hint", "input/empty_set", "input/identical_sets", "input/set_with_ancestor_and_descendant"] {
             v.push(b.to_string());
         }
         v
@@ -123,7 +131,7 @@ impl Monitor for C17 {
         let tree = rng.chance(1, 2);
         let ont = small_ontology(n_terms, tree);
         let dseed = rng.next_u64();
-        out.bucket(["distance_range/positive", "distance_range/mixed_sign", "distance_range/large", "distance_range/negative", "distance_range/tiny"][(dseed % 5) as usize]);
+        out.bucket(["distance_range/positive", "distance_range/mixed_sign", "distance_range/large", "distance_range/negative", "distance_range/tiny", "distance_range/mixed_sign_with_exact_zeros"][(dseed % 6) as usize]);
         // distinct sets; one of them may be empty
         let mut sets: Vec<Vec<u32>> = Vec::new();
         let mut seen: BTreeSet<Vec<u32>> = BTreeSet::new();
@@ -189,6 +197,15 @@ impl Monitor for C17 {
             log.borrow_mut().push(pairs);
             res
         };
+        // which end the owned iterator is read from at each step (bit pattern; 0 = always from the front)
+        let back_pattern: u64 = match rng.below(4) {
+            0 => 0,
+            1 => u64::MAX,
+            _ => rng.next_u64(),
+        };
+        if back_pattern != 0 {
+            out.bucket("owned_iterator_read_from_both_ends");
+        }
         let inexact_hint = rng.chance(1, 2);
         if inexact_hint {
             out.bucket("input/iterator_with_inexact_size_hint");
@@ -215,10 +232,41 @@ impl Monitor for C17 {
             let via_iter: Vec<Merge> = linkage.iter().map(|c| Merge { lhs: c.lhs(), rhs: c.rhs(), distance: c.distance(), len: c.len() }).collect();
             let via_ref: Vec<Merge> = (&linkage).into_iter().map(|c| Merge { lhs: c.lhs(), rhs: c.rhs(), distance: c.distance(), len: c.len() }).collect();
             let indicies = linkage.indicies();
-            let via_into: Vec<Merge> = linkage.into_cluster().map(|c| Merge { lhs: c.lhs(), rhs: c.rhs(), distance: c.distance(), len: c.len() }).collect();
-            (via_cluster, via_iter, via_ref, indicies, via_into)
+            let conv = |c: &hpo::stats::cluster::Cluster| Merge { lhs: c.lhs(), rhs: c.rhs(), distance: c.distance(), len: c.len() };
+            // borrowed iterators read backwards
+            let mut cluster_rev: Vec<Merge> = linkage.cluster().rev().map(conv).collect();
+            cluster_rev.reverse();
+            let mut ref_rev: Vec<Merge> = (&linkage).into_iter().rev().map(conv).collect();
+            ref_rev.reverse();
+            // the owned iterator read from both ends in a seeded pattern: the items taken from the front
+            // followed by the reversed items taken from the back are the merges in order
+            let mut it = linkage.into_cluster();
+            let mut front: Vec<Merge> = Vec::new();
+            let mut back: Vec<Merge> = Vec::new();
+            let mut pat = back_pattern;
+            loop {
+                let from_back = pat & 1 == 1;
+                pat = pat.rotate_right(1);
+                let item = if from_back { it.next_back() } else { it.next() };
+                match item {
+                    Some(c) => {
+                        if from_back {
+                            back.push(conv(&c));
+                        } else {
+                            front.push(conv(&c));
+                        }
+                    }
+                    None => break,
+                }
+                if front.len() + back.len() > 10_000 {
+                    break;
+                }
+            }
+            back.reverse();
+            front.extend(back);
+            (via_cluster, via_iter, via_ref, indicies, front, cluster_rev, ref_rev)
         });
-        let (merges, via_iter, via_ref, indicies, via_into) = match res {
+        let (merges, via_iter, via_ref, indicies, via_into, cluster_rev, ref_rev) = match res {
             Ok(x) => x,
             Err(p) => {
                 out.violate("C17", &format!("panic/{}", METHODS[method]), format!("n={n}: {} at {}", p.message, p.location));
@@ -226,7 +274,11 @@ impl Monitor for C17 {
             }
         };
         let m = METHODS[method];
-        out.check(via_iter == merges && via_ref == merges && via_into == merges, "C17", "accessor_twins", || "cluster(), iter(), &Linkage and into_cluster() disagree".to_string());
+        out.check(via_iter == merges && via_ref == merges, "C17", "accessor_twins", || "cluster(), iter() and &Linkage disagree".to_string());
+        out.check(via_into == merges, "C17", "accessor_twins/into_cluster", || {
+            format!("into_cluster() read with end pattern {back_pattern:#x} gives {via_into:?}, cluster() gives {merges:?}")
+        });
+        out.check(cluster_rev == merges && ref_rev == merges, "C17", "accessor_twins/reversed", || "cluster().rev() or (&Linkage).into_iter().rev() is not the reverse of cluster()".to_string());
         bump(&mut out.events, "Linkage::cluster");
         bump(&mut out.events, "Linkage::indicies");
 
